@@ -84,6 +84,16 @@ pub fn rename_scenario(seed: u64) -> Made {
     w.inject_msg(h, ifs[0].index, scen::peer4(77), &m);
     let mut desc = format!("rename ifs={} type={ty}: @0:register0 @{at}:conflicting-{}", ifs.len(), if which == 0 { "srv" } else { "address" });
     let t_end = 4000 + rng.below(3000);
+    // sometimes the application updates the service (registers it again with another TXT) shortly before it
+    // withdraws it: the changed record is still being probed when the goodbye is due
+    let update_before = if rng.chance(1, 3) { Some(100 + rng.below(800)) } else { None };
+    if let Some(d) = update_before {
+        w.run_until(t0 + t_end - d);
+        let mut reg2 = reg.clone();
+        reg2.txt = vec![("k".to_string(), Some(b"changed".to_vec()))];
+        w.register(h, reg2);
+        desc.push_str(&format!(" @{}:re-register0", t_end - d));
+    }
     w.run_until(t0 + t_end);
     if rng.chance(1, 3) {
         w.shutdown(h);
@@ -331,10 +341,16 @@ fn check_goodbyes(made: &Made, reg: &RegInfo, api_idx: usize, t: u64, by_unregis
     let sub = reg.subtype.as_ref().map(|s| scen::wire_name(s));
     let ifs = trace.ifs_at(0, t);
     // registration index: announcements count from there
-    let reg_idx = trace.entries[..api_idx]
+    // (the first registration of the current period: registering a live service again updates it, what was
+    // announced before stays announced)
+    let period_start = trace.entries[..api_idx]
         .iter()
-        .rposition(|e| matches!(&e.ev, Ev::Api { call: ApiCall::Register(r), result: ApiResult::Ok, .. } if r.fullname.eq_ignore_ascii_case(&reg.fullname)))
-        .unwrap_or(0);
+        .rposition(|e| matches!(&e.ev, Ev::Api { call: ApiCall::Unregister(n), result: ApiResult::Ok, .. } if n.eq_ignore_ascii_case(&reg.fullname)))
+        .map_or(0, |i| i + 1);
+    let reg_idx = trace.entries[period_start..api_idx]
+        .iter()
+        .position(|e| matches!(&e.ev, Ev::Api { call: ApiCall::Register(r), result: ApiResult::Ok, .. } if r.fullname.eq_ignore_ascii_case(&reg.fullname)))
+        .map_or(0, |i| i + period_start);
     let t_reg = trace.entries[reg_idx].t;
     let what = if by_unregister { "unregister" } else { "shutdown" };
     for i in ifs.iter() {
